@@ -60,6 +60,13 @@ Lemma good_failing_runs :
   exists rs sk stk, run_interp 200 spgood_failing [] = TDone rs sk stk /\ all_passed rs = false /\ map fail_count rs = [0; 2].
 Proof. eexists _, _, _. split; [vm_compute; reflexivity|]. split; vm_compute; reflexivity. Qed.
 
+(* every shadow block runs: a false assertion in the FIRST of two blocks of one function closes the gate although the last block
+   of that function passes; the imported function 4 has no block and is not reported *)
+Lemma every_block_runs :
+  nanoc {| front_ok := true; later_ok := true |} 200 spmulti [] =
+  NExit 1 false [RTesting 2%N [] false; RFailed 2%N 1; RTesting 0%N [] true; RTesting 2%N [] true; RShadowTestsFailed] [].
+Proof. vm_compute. reflexivity. Qed.
+
 (* ---- arrays ---- *)
 (* the evaluator prints what the reference prints ("8" once, then the array) and passes *)
 Lemma arrays_agree :
